@@ -1,7 +1,7 @@
 (* C01 — Generated parsers recognise exactly the PEG language of the grammar.
    Only statements, `exact`, `Check` pins and Print Assumptions live here. *)
 From PegV Require Import Utf8 Utf8Facts State Terminals TerminalsSpec TerminalsOk Syntax Fields
-  FieldsFacts Literals LiteralsFacts Model Spec Sim Conform MemoEq MemoSpec Extracted WellFormed Termination TermModel GrammarEbnf.
+  FieldsFacts Literals LiteralsFacts Model Spec Sim Conform MemoEq MemoSpec Extracted WellFormed Termination TermModel MemoTerm GrammarEbnf.
 
 (* side conditions on the decision points found in the current source *)
 Theorem C01_facts :
@@ -212,3 +212,21 @@ Proof. split; [exact TermModel.nullclo_not_well_formed|]. intros. apply TermMode
 Print Assumptions C01_nullable_closure_diverges.
 
 Check WellFormed.wf_check : grammar -> (name -> bool) -> (WellFormed.runit -> nat) -> bool.
+
+(* grammars with @memoize rules (any subset, no @leftrec rule) that pass the check: the model of
+   the generated, memoizing parser returns on every input from some bound on *)
+Theorem C01_memoized_terminates :
+  forall (ustate : Type) (hk : hooks ustate) (shk : shooks) (g : grammar),
+    pure_hooks ustate hk shk ->
+    (forall r, In (GRule r) g -> fl_left_recursive (flags_of (r_directives r)) = false) ->
+    forall nul rk, WellFormed.wf_check g nul rk = true ->
+    forall rule_name cs u, all_scalar cs ->
+    exists F, forall f, F <= f ->
+      fst (m_parse ustate Extracted.scfg Extracted.tcfg Extracted.fcfg Extracted.rcfg hk g
+                   f rule_name (encode_str cs) u) <> MFuel.
+Proof.
+  intros ustate hk shk g Hp NoLR nul rk W.
+  exact (MemoTerm.memo_model_terminates ustate Extracted.scfg Extracted.fcfg Extracted.rcfg hk shk g
+           eq_refl eq_refl eq_refl Hp NoLR nul rk W).
+Qed.
+Print Assumptions C01_memoized_terminates.
